@@ -251,6 +251,22 @@ def case_correction(col, p):
             if sum(idx) > 0 and all(F == 0 for F in Fx):
                 if not np.allclose(od, proj, rtol=0, atol=1e-9):
                     col.violation('C18:make_low_pass_func:deep_coverage_not_projection', info, {'maxdiff': float(np.abs(od - proj).max())})
+    # a model spectrum with its corners masked (the usual case) and arbitrary numbers stored under the mask: what is masked is not a site
+    junk = np.full(shape, 1.0 / N)
+    junk.flat[0], junk.flat[-1] = 5.0, 7.0
+    holder['data'] = junk
+    holder['fs_of'] = junk
+    holder['fs'] = dadi.Spectrum(junk.copy(), mask_corners=True)
+    try:
+        out = f(None, list(nsub), None)
+        col.tick(transitions=1)
+        cnt += 1
+        tot_model = float(junk.sum() - 12.0)
+        tot_out = float(np.ma.masked_invalid(out).sum()) if isinstance(out, np.ma.MaskedArray) else float(np.nansum(np.asarray(out)))
+        if tot_out > tot_model * (1 + 1e-10):
+            col.violation('C18:make_low_pass_func:more_sites_than_model', dict(p, model='dense with masked corners'), {'total': tot_out, 'model_total': tot_model})
+    except Exception as ex:
+        col.violation('C18:make_low_pass_func:raises', dict(p, model='dense with masked corners'), '%s: %s' % (type(ex).__name__, str(ex)[:200]))
     col.tick(states=cnt, traces=cnt)
     col.distinct('nontrivial', ('correction', nseq, nsub, tuple(Fx), thr, cname, p.get('prehistory')))
 
